@@ -126,6 +126,9 @@ func (p *Program) InModule(fn *ssa.Function) bool {
 	return false
 }
 
+// InModulePkg reports whether a package path belongs to the module under analysis.
+func (p *Program) InModulePkg(path string) bool { return strings.HasPrefix(path, p.Mod) }
+
 // FuncName is a stable, readable name: the package path relative to the module
 // plus the receiver and name, e.g. "pkg/generator.(*schemaGenerator).addStructField"
 // or "main.init$1" for closures.
